@@ -524,6 +524,45 @@ var binPositions = []position{
 	}},
 }
 
+// derived positions wrap a comparison in something whose value follows from the comparison's: a negation, or the
+// comparison of a difference with zero. An implementation may not rewrite !(a < b) to a >= b (NaN) nor a - b < 0 to
+// a < b (the difference wraps).
+type derivedPosition struct {
+	Name string
+	Body func(T, op string) string
+	Want func(op string, a, b num) outcome
+}
+
+func notOf(o outcome) outcome {
+	if o.Bool == nil {
+		return o
+	}
+	return obool(!*o.Bool)
+}
+
+func zeroOf(a num) num {
+	if a.T == tF64 {
+		return mkf(0)
+	}
+	return mk(a.T, 0)
+}
+
+var derivedPositions = []derivedPosition{
+	{"notcmp", func(T, op string) string { return "return !(a " + op + " b)" }, func(op string, a, b num) outcome { return notOf(native(op, a, b)) }},
+	{"notcmpg", func(T, op string) string {
+		return "GA = a; GB = b; if !(GA " + op + " GB) { return true }; return false"
+	}, func(op string, a, b num) outcome { return notOf(native(op, a, b)) }},
+	{"diffzero", func(T, op string) string { return "GA = a; GB = b; return GA - GB " + op + " 0" }, func(op string, a, b num) outcome {
+		return native(op, *native("-", a, b).Num, zeroOf(a))
+	}},
+	{"diffzerol", func(T, op string) string { return "x := a; return x - b*1 " + op + " 0" }, func(op string, a, b num) outcome {
+		return native(op, *native("-", a, b).Num, zeroOf(a))
+	}},
+	{"zerodiff", func(T, op string) string { return "GA = a; return 0 " + op + " GA - b" }, func(op string, a, b num) outcome {
+		return native(op, zeroOf(a), *native("-", a, b).Num)
+	}},
+}
+
 type constPosition struct {
 	Name     string
 	Compound bool
@@ -873,6 +912,11 @@ func binScript(t ntype, T string) string {
 			fmt.Fprintf(&sb, "func %s(a %s, b %s) any { %s }\n", fnameBin(p.Name, op, t), T, T, p.Body(T, op))
 		}
 	}
+	for _, p := range derivedPositions {
+		for _, op := range cmpOps {
+			fmt.Fprintf(&sb, "func %s(a %s, b %s) any { %s }\n", fnameBin(p.Name, op, t), T, T, p.Body(T, op))
+		}
+	}
 	for _, p := range incPositions {
 		for _, op := range []string{"++", "--"} {
 			fmt.Fprintf(&sb, "func %s(a %s) any { %s }\n", fnameBin(p.Name, op, t), T, p.Body(T, op))
@@ -972,6 +1016,15 @@ func checkPair(l *loaded, a, b num, count func(nontrivial bool)) *ev.Failure {
 		for _, op := range opsFor(l.t, !p.Compound) {
 			want := native(op, a, b)
 			count(nontrivialBin(op, a, b, want))
+			if f := reportBin(l.s, fnameBin(p.Name, op, l.t), fmt.Sprintf("%s %s %s in position %q", l.T, op, l.T, p.Name), want, l.opt, a, b); f != nil {
+				return f
+			}
+		}
+	}
+	for _, p := range derivedPositions {
+		for _, op := range cmpOps {
+			want := p.Want(op, a, b)
+			count(true)
 			if f := reportBin(l.s, fnameBin(p.Name, op, l.t), fmt.Sprintf("%s %s %s in position %q", l.T, op, l.T, p.Name), want, l.opt, a, b); f != nil {
 				return f
 			}
